@@ -48,8 +48,8 @@ def first_member(t):
 def zero_literal_bad(t, cc="clang"):
     """cemitter.add_zeroed_type_literal emits `{0}` unless the type is empty (`{}`) or is a record whose
     first field is empty (`{{}}`).  `{0}` is rejected by clang ("initializer for aggregate with no elements
-    requires explicit braces") when brace elision reaches an aggregate without elements: recorded finding,
-    such types are kept out of the clang stream."""
+    requires explicit braces") when brace elision reaches an aggregate without elements: repaired in /repo
+    7a419f3 (`{}` is emitted then); the predicate is only used to count how many generated types exercise it."""
     def is_empty_attr(x):      # the `is_empty` attribute of types.lua: zero-size record/union, zero-length array
         if x[0] in ("p", "ptr"):
             return False
@@ -138,8 +138,8 @@ class Program:
         self.body.append("do")
         self.body.append("  local X = @%s" % name)
         self.body.append("  local v: X  local w: X")
-        # (variables of a zero-size type are not declared by the C generator: recorded finding, replayed separately)
-        self.body.append("  local same = (v == w)" if t[0] in ("rec", "uni", "arr") and not is_zero(t) else "  local same = true")
+        # (zero-size types included: their variables are emitted as literals since /repo 6bd6c3a)
+        self.body.append("  local same = (v == w)" if t[0] in ("rec", "uni", "arr") else "  local same = true")
         offs_n = "".join(", #[X.value.fields[%d].offset]#" % (i + 1) for i in range(nf))
         self.body.append("  print('n', %d, #[X.value.size]#, #[X.value.align]#, same%s)" % (idx, offs_n))
         fmt = "c\\\\t%d\\\\t%%d\\\\t%%d" % idx + "\\\\t%d" * nf + "\\\\n"
